@@ -91,7 +91,7 @@ def run(tier, seed, prop=PROP, checks=CHECKS):
     out = common.validate_into(res, norm_path, "Trace_Cluster.tla", "Trace_Cluster.cfg", checks, devs,
                                "/dev/null", wd, {c["id"]: c for c in cases})
     res.coverage.update({
-        "states": 1, "transitions": 1,
+        "states": out["states"], "transitions": out["events"],
         "model": "Trace_Cluster.tla (ClusterMonitor reference)",
         "traces_validated_against_impl": out["runs"], "events_validated": out["events"],
         "cases": len(cases),
